@@ -202,21 +202,23 @@ PROPS = {
         unreached=["EntryWriter::finish", "MetricsForDimensionSet::new"],
     ),
     "C15": dict(
-        verus=[("wrappers", {}), ("boxed", {}), ("wrappers2", {})],
+        verus=[("wrappers", {}), ("boxed", {}), ("wrappers2", {}), ("forceflag", {})],
         technique="Verus trait contracts (ghost item log / effect witnesses) on the extracted real forwarding impls: Merged, MergedRef, RootEntry, &T / Option / Box / Arc for Entry and InflectableEntry (write and sample_group), &T / Box / Arc for Value, and every adapter method of the BoxEntry Dyn* bridge",
         level_text="Deductive proof (Verus/z3) that each wrapper's real write and sample_group bodies report exactly what its documented definition says: merged = first entry's items then second's (globals first), "
                    "references / Box / Arc / RootEntry = the inner entry's items, an absent Option nothing - same for sample groups; plus a composition lemma for nested wrappers. "
                    "For the BoxEntry bridge: each of the 14 adapter methods (EntryWriterToDyn / EntryWriterFromDyn timestamp, value, config; ValueWriterToDyn / ValueWriterFromDyn string, metric, error; ValueToDyn::write; "
                    "DynEntry / BoxEntry sample_group) forwards exactly one call with the same content - for metric, the same observations and dimensions in the same order for any iterator argument "
                    "(size_hint is only a bound). ForceFlag<E>, WithDimensions<E, N> and WithGlobalDimensions<E, N> preserve the wrapped entry's sample group (their own sample_group, or the trait default instantiated when they do not define one). "
-                   "What these three do to the values (merged flags, appended dimensions, deny list) and the Cow impls are NOT reached.",
+                   "ForceFlag: the value-writer wrapper forwards string / error unchanged and metric with exactly the same observations, unit and dimensions and the flag merged in (flags.try_merge(FLAGS::construct())); "
+                   "ForceFlagEntryWriter forwards timestamp / config unchanged and every value wrapped so that its one call arrives with the flag forced. "
+                   "What WithDimensions / WithGlobalDimensions do to the values (appended dimensions, deny list) and the Cow impls are NOT reached.",
         level_note="Trusted: the trait-level contract 'an entry appends exactly items()' as the meaning of transparency; rewrites R14 (argument-position impl Trait as a named generic), R23 (return-position impl Iterator as an associated type / stand-in), "
                    "R24 ([].into_iter()), B1 (slice.iter().copied()); std's Iterator / IntoIterator / FromIterator / Into restated as traits over the element sequence; Verus + z3. "
                    "Three one-line compositions of the bridge are assumed, not proved: ValueFromDyn::write and BoxEntry::write (unsizing of `&mut T` to `&mut dyn Trait` is unsupported by this Verus) and <E as DynEntry>::write (needs a frame condition on the temporary adapter's inner reference).",
         explanation="forwarding wrappers and the boxed-entry bridge against ghost logs",
         assumptions=["every leaf Entry / Value implementation meets the trait contract (it is the definition of what the entry reports)",
                      "ValueFromDyn::write, BoxEntry::write and <E as DynEntry>::write (each a single forwarding call that wraps its argument in an adapter) meet the forwarding contract"],
-        unreached=["BoxEntry::write / <E as DynEntry>::write / ValueFromDyn::write (assumed)", "WithDimensions / WithGlobalDimensions / ForceFlag: the value decoration (write)", "Cow forwarding impls", "Option<T> as Value (negative fact)"],
+        unreached=["BoxEntry::write / <E as DynEntry>::write / ValueFromDyn::write (assumed)", "WithDimensions / WithGlobalDimensions: the value decoration (appended dimensions, deny list)", "<ForceFlag as Entry>::write / EntryIoStream for ForceFlag (one-line compositions)", "Cow forwarding impls", "Option<T> as Value (negative fact)"],
     ),
     "C19": dict(
         kani=["core_unit"],
